@@ -493,16 +493,8 @@ func (sc *selCtx) highCoinsPremise(offered ssa.Value) (bool, string) {
 			if less == nil {
 				continue
 			}
-			for _, ret := range returnsOf(less) {
-				bo, ok := ret.Results[0].(*ssa.BinOp)
-				if !ok || bo.Op != token.LSS {
-					continue
-				}
-				x, ok1 := coinAccessorCall(bo.X, "ValueAge")
-				y, ok2 := coinAccessorCall(bo.Y, "ValueAge")
-				if ok1 && ok2 && elemIndexIs(x, less.Params[1]) && elemIndexIs(y, less.Params[2]) {
-					sorted = true
-				}
+			if lessAscendingBy(less, "ValueAge") {
+				sorted = true
 			}
 		}
 	}
@@ -837,6 +829,7 @@ func (sc *selCtx) analyseSelector(r *Report) (nReturns int) {
 			}
 		}
 		guess := map[*ssa.BasicBlock]*ssa.Phi{}
+		guessOff := map[*ssa.BasicBlock]int64{}
 		for iter := 0; iter < 50; iter++ {
 			changed := false
 			for _, b := range rpo {
@@ -867,29 +860,41 @@ func (sc *selCtx) analyseSelector(r *Report) (nReturns int) {
 						if g, has := guess[b]; has && g != phi {
 							continue
 						}
-						good := true
-						for k, e := range ins {
-							if !e.reached {
+						good := false
+						off := int64(0)
+						for _, tryOff := range []int64{0, 1} { // count ≤ φ, or count ≤ φ+1 (range loops count from −1)
+							if o, has := guessOff[b]; has && o != tryOff {
 								continue
 							}
-							if _, has := guess[b]; !has && b.Dominates(b.Preds[k]) {
-								continue // back edge: checked once its state has been recomputed from the guess
+							okAll := true
+							for k, e := range ins {
+								if !e.reached {
+									continue
+								}
+								if _, has := guess[b]; !has && b.Dominates(b.Preds[k]) {
+									continue // back edge: checked once its state has been recomputed from the guess
+								}
+								if e.cntTop {
+									okAll = false
+									break
+								}
+								conds := MustCondsAtBlock(fn, b.Preds[k])
+								if cd, ok := edgeCond(b.Preds[k], b); ok {
+									conds = append(conds, cd)
+								}
+								if !sc.lc.Entails(sc.lc.FactsOf(conds), e.cnt.add(sc.lc.Lin(phi.Edges[k]).addConst(tryOff), -1)) {
+									okAll = false
+									break
+								}
 							}
-							if e.cntTop {
-								good = false
-								break
-							}
-							conds := MustCondsAtBlock(fn, b.Preds[k])
-							if cd, ok := edgeCond(b.Preds[k], b); ok {
-								conds = append(conds, cd)
-							}
-							if !sc.lc.Entails(sc.lc.FactsOf(conds), e.cnt.add(sc.lc.Lin(phi.Edges[k]), -1)) {
-								good = false
+							if okAll {
+								good, off = true, tryOff
 								break
 							}
 						}
 						if good {
-							st.cnt, st.cntTop = sc.lc.Lin(phi), false
+							guessOff[b] = off
+							st.cnt, st.cntTop = sc.lc.Lin(phi).addConst(off), false
 							if _, had := guess[b]; !had {
 								// drop what was computed inside the loop from the old header state
 								for _, d := range fn.Blocks {
@@ -1117,11 +1122,21 @@ func c19prefix(p *Program, r *Report) {
 			var header *ssa.BasicBlock
 			var phi *ssa.Phi
 			okElem := false
+			rangeForm := false
 			if ld, ok := c.Call.Args[1].(*ssa.UnOp); ok {
 				if ia, ok := ld.X.(*ssa.IndexAddr); ok && ia.X == ssa.Value(fn.Params[2]) {
 					if ph, ok := ia.Index.(*ssa.Phi); ok && isLoopHeader(ph.Block()) && ph.Block().Dominates(b) {
 						phi, header = ph, ph.Block()
 						okElem = true
+					}
+					// `for n, coin := range coins`: the index is φ+1 with φ = (−1, φ+1)
+					if inc, ok := ia.Index.(*ssa.BinOp); ok && inc.Op == token.ADD {
+						if ph, ok := inc.X.(*ssa.Phi); ok && isLoopHeader(ph.Block()) && ph.Block().Dominates(b) {
+							if k1, isK := constInt(inc.Y); isK && k1 == 1 {
+								phi, header = ph, ph.Block()
+								okElem, rangeForm = true, true
+							}
+						}
 					}
 				}
 			}
@@ -1131,6 +1146,10 @@ func c19prefix(p *Program, r *Report) {
 			}
 			okStep := len(phi.Edges) == 2
 			var latches []*ssa.BasicBlock
+			wantInit := int64(0)
+			if rangeForm {
+				wantInit = -1
+			}
 			for k, e := range phi.Edges {
 				pred := header.Preds[k]
 				if header.Dominates(pred) {
@@ -1141,7 +1160,7 @@ func c19prefix(p *Program, r *Report) {
 					} else if k1, isK := constInt(inc.Y); !isK || k1 != 1 {
 						okStep = false
 					}
-				} else if k0, isK := constInt(e); !isK || k0 != 0 {
+				} else if k0, isK := constInt(e); !isK || k0 != wantInit {
 					okStep = false
 				}
 			}
@@ -1173,7 +1192,7 @@ func c19prefix(p *Program, r *Report) {
 						all = false
 					}
 				}
-				// passing leaves the loop with the set
+				// passing leaves the loop with the set (`if ok { return }`, or `if !ok { continue }; return`)
 				_, isRet := lastInstr(b2.Succs[0]).(*ssa.Return)
 				if all && isRet {
 					okTest = true
